@@ -92,6 +92,7 @@ class Translator:
         self.assigned_outside_ctor = {}   # struct type -> set(member)
         self.struct_of_ctor = {}
         self.statics = {}      # (file, name) -> unique name of a static function
+        self.method_targets = set()   # (file, name) of every function stored into a method pointer of a container structure
 
     # ---- pass 1: collect functions, constructor method tables
     def collect(self, tu, file):
@@ -198,6 +199,7 @@ class Translator:
             if lhs.get('kind') == 'MemberExpr' and rhs.get('kind') == 'DeclRefExpr' and rhs.get('referencedDecl', {}).get('kind') == 'FunctionDecl':
                 bt = lhs['inner'][0].get('type', {}).get('qualType', '')
                 self.methods[(self.tyname(bt), lhs['name'])] = rhs['referencedDecl']['name']
+                self.method_targets.add((f.file, rhs['referencedDecl']['name']))
         for c in n.get('inner', []):
             self.scan_assignments(c, f)
 
@@ -495,11 +497,13 @@ def generate(repo):
            "From Coq Require Import List String.", "From QV.Conc Require Import LockAst.", "Import ListNotations.", "Local Open Scope string_scope.", ""]
     for n in order:
         out.append("Definition f_%s : stmt := %s." % (n, emit(raw[n], n)))
-    pub = [n for n in sorted(tr.fns) if not tr.fns[n].static and not n.endswith('_lock') and not n.endswith('_unlock')]
+    via_pointer = {tr.statics[k] for k in tr.method_targets if k in tr.statics}
+    pub = [n for n in sorted(tr.fns) if (not tr.fns[n].static or n in via_pointer) and not n.endswith('_lock') and not n.endswith('_unlock')]
     out.append("")
-    out.append("(* every non-static function of the lockable containers except the lock()/unlock() primitives themselves *)")
+    out.append("(* every non-static function of the lockable containers, and every static one that a constructor stores into a method")
+    out.append("   pointer (the operations of qlog), except the lock()/unlock() primitives themselves *)")
     out.append("Definition public_api : list (string * stmt) := [%s]." % '; '.join('("%s", f_%s)' % (n, n) for n in pub))
-    skip = re.compile(r'^(q(treetbl|hashtbl|listtbl|list|vector|queue|stack|grow|log)|.*_(free|size|datasize|debug|check|getnext|set_compare|freemulti|setsize|byte_cmp)|node_check_.*|qlog_.*)$')
+    skip = re.compile(r'^(q(treetbl|hashtbl|listtbl|list|vector|queue|stack|grow|log)|.*_(free|size|datasize|debug|check|getnext|set_compare|freemulti|setsize|byte_cmp)|node_check_.*|qlog_.*)$')   # qlog_.* also covers the static qlog__<method> names
     c13 = [n for n in pub if not skip.match(n)]
     out.append("(* the operations property C13 speaks about: put/add/push, get, remove/pop, clear, flattening, reverse, sort ... of the")
     out.append("   lockable containers; constructors and free() (exclusive access by contract), size()/debug()/check() (plain reads outside")
